@@ -587,6 +587,12 @@ class RecordingPlateau(StopOnPlateau):
         if len(self.seen) >= self.cap:
             raise StepCap()
         o = self.optimizer
+        # whether the optimizer's last step involved a rejection is observed at the solver seam (a second solve inside
+        # one LM step means the first trial was rejected), not taken from the optimizer's own counter
+        sv = getattr(self, "solver_ref", None)
+        solves = (sv.calls - getattr(self, "_calls_seen", 0)) if sv is not None else 0
+        self._calls_seen = sv.calls if sv is not None else 0
+        self.solves_per_step = getattr(self, "solves_per_step", []) + [solves]
         self.seen.append((float(o.last), float(o.loss), int(getattr(o, "reject_count", 0))))
         super().step(loss)
         self.after = getattr(self, "after", []) + [bool(self.continual())]
@@ -610,6 +616,7 @@ def _drive_optimize(plan, out, tr):
             opt = pp.optim.GN(model, solver=solver)
         sch = RecordingPlateau(opt, steps=steps, patience=c["patience"], decreasing=c["decreasing"],
                                cap=10 * steps + 5)
+        sch.solver_ref = solver
         import io, contextlib
         solver.cap = (c["reject"] + 2) * (10 * steps + 5)
         escaped = None
@@ -660,7 +667,10 @@ def _drive_optimize(plan, out, tr):
             if abs(decr - d) < 1e-9 * max(abs(last), abs(loss), 1.0) and decr != d:
                 out.declined("C20.near-threshold"); break
             was = ref.stopped
-            causes = ref.step(not (decr < d), rejected=rc > 0)
+            seam_rejected = c["opt"] == "LM" and sch.solves_per_step[k] >= 2
+            if seam_rejected != (rc > 0):
+                out.probe("optimizer-counter-disagrees-with-seam")
+            causes = ref.step(not (decr < d), rejected=seam_rejected or rc > 0)
             if not was:
                 for cz in causes:
                     out.probe("stop:" + cz)
